@@ -75,12 +75,12 @@ Inf == {INF_CUT}
 
 QuickJobs ==
   { J("sq21", "id", "all", "all", Inf),   J("sq21", "rot", "all", "all", Inf),
-    J("sq22", "id", "few", "uni", Inf),   J("sq22", "rot", "all", "uni", Inf),
+    J("sq22", "id", "few", "uni", Inf),   J("sq22", "rot", "all", "uni2", Inf),
     J("sq33", "rot", "one", "uni2", Inf), J("sq32", "id", "one", "uni2", {INF_CUT, 1200}),
     J("hex2", "swap", "all", "all", Inf), J("hex2", "id", "few", "uni", Inf),
     J("hex3", "swap", "all", "uni", Inf), J("hex7", "rot", "one", "uni2", Inf),
     J("irr5", "id", "few", "uni2", {INF_CUT, 5500, 4500}),
-    J("diag2", "rot", "all", "all", Inf), J("iso2", "rot", "all", "all", {INF_CUT, 1000}) }
+    J("diag2", "rot", "all", "all", Inf), J("iso2", "rot", "all", "all", Inf) }
 
 ThoroughJobs ==
   { J("sq21", "id", "all", "all", Inf),   J("sq21", "rot", "all", "all", Inf), J("sq21", "swap", "all", "all", Inf),
